@@ -74,6 +74,19 @@ def from_integer(suffix, ctype, contract):
 SINKS = '((const char*)vx_sink)'
 RES = '__CPROVER_return_value'
 GA = 'vx_sink_n, __CPROVER_object_whole(vx_sink), __CPROVER_object_whole(vx_gv), __CPROVER_object_whole(vx_gd), vx_g_i, vx_g_n'
+def _link_clause(i):
+    return ('ensures', '[C04][C01] ghost record, digit position %d: |value_i| == 10 * |value_{i+1}| + digit_i with digit_i <= 9, and output character n-1-i (after the sign) is that digit' % i,
+            '((%d < vx_g_n) ==> (vx_gv[%d] == 10 * vx_gv[%d] + vx_gd[%d] && vx_gd[%d] <= 9 && vx_gv[%d] <= UINT64_MAX / 10 && vx_sink[vx_sink_n - 1 - %d] == 48 + vx_gd[%d]))'
+            % (i, i, i + 1, i, i, i + 1, i, i))
+
+
+def GHOST_POST(mag, neg):
+    return [
+        ('ensures', '[C04][C01] ghost record: n digits were generated, one output character each, most significant first; the record starts at |value| and ends at 0',
+         'vx_g_n >= 1 && vx_g_n <= 20 && vx_sink_n == vx_g_n + (' + neg + ') && vx_gv[0] == (' + mag + ') && vx_gv[vx_g_n] == 0'),
+    ] + [_link_clause(i) for i in range(20)]
+
+
 ITOA_I64 = [
     ('requires', 'vx_sink_n == 0'),
     ('assigns', GA),
@@ -83,14 +96,14 @@ ITOA_I64 = [
     ('ensures', '[C04][C01][C08] non-negative values print as canonical digits only (no sign, no leading zero)',
      'value >= 0 ==> spec_canonical_digits(%s, vx_sink_n)' % SINKS),
     ('ensures', '[C04][C01] zero prints as "0"', 'value == 0 ==> (vx_sink_n == 1 && vx_sink[0] == \'0\')'),
-]
+] + GHOST_POST('value < 0 ? (uint64_t)0 - (uint64_t)value : (uint64_t)value', 'value < 0 ? 1 : 0')
 ITOA_U64 = [
     ('requires', 'vx_sink_n == 0'),
     ('assigns', GA),
     ('ensures', '[C04][C01][C08] at most 20 characters, return value = characters pushed', '%s == vx_sink_n && vx_sink_n >= 1 && vx_sink_n <= 20' % RES),
     ('ensures', '[C04][C01][C08] the text is canonical digits (RFC 8259 int: no leading zero)', 'spec_canonical_digits(%s, vx_sink_n)' % SINKS),
     ('ensures', '[C04][C01] zero prints as "0"', 'value == 0 ==> (vx_sink_n == 1 && vx_sink[0] == \'0\')'),
-]
+] + GHOST_POST('value', '0')
 
 SPECS = [
     DIGITS,
@@ -131,7 +144,5 @@ HARNESSES = LINKS + [
     Harness('dec_i64', 'h_dec_i64', enforce='dec_to_integer_i64', replace=['dec_to_integer_u64'], method='WU(22)', unwind=22, flags=US, props=['C04'], timeout=600),
     Harness('itoa_i64', 'h_itoa_i64', enforce='from_integer_i64', method='WU(22)', unwind=22, split=True, flags=US, props=['C04', 'C01', 'C08'], timeout=300),
     Harness('itoa_u64', 'h_itoa_u64', enforce='from_integer_u64', method='WU(22)', unwind=22, split=True, flags=US, props=['C04', 'C01', 'C08'], timeout=300)
-] + [Harness('lemma_int_rt_n%d' % n, 'h_int_rt', dfcc=False, method='WU(22)', unwind=22, flags=US, split=True, props=['C04', 'C01'], timeout=600,
-             defines=['VX_H_lemma_int_rt', 'VX_N=%d' % n],
-             note='L-INT-RT, case n=%d digits: dec_to_integer(from_integer(v)) == v, signed and unsigned, real extracted bodies, explicit induction through the ghost link facts' % n)
-     for n in range(1, 21)]
+] + [Harness('lemma_int_rt', 'h_int_rt', replace=['from_integer_i64', 'from_integer_u64'], method='WU(22)', unwind=22, flags=US, split=True, props=['C04', 'C01'], timeout=600,
+             note='L-INT-RT: dec_to_integer(from_integer(v)) == v for all 2^64 bit patterns, signed and unsigned: real extracted body of dec_to_integer, from_integer through its contract (ghost digit record), explicit induction over the digits')]
